@@ -35,7 +35,7 @@ SELECT = {
     "C02": lambda f: True,
     "C03": lambda f: True,
     "C16": lambda f: True,
-    "C04": lambda f: not (f["pred"] or f["assert"] or f["oc"]),
+    "C04": lambda f: not (f["pred"] or f["assert"]),
     "C06": lambda f: not (f["pred"] or f["assert"] or f["oc"]),
     "C05": lambda f: not (f["pred"] or f["assert"] or f["oc"] or f["leftrec"] or f["empty_rule"]),
     "C08": lambda f: f["oc"],
@@ -201,6 +201,62 @@ def lean_outcome(o, prop):
     }
 
 
+DEV_CAUSE = [("CreateBelowSnapshot", "creation_below_snapshot"), ("StaleInnerMark", "stale_inner_mark"),
+             ("RestoreKeepsErrorState", "restore_unmutes")]
+_cause_cache = {}
+
+
+def grammar_causes(b):
+    """Grammar-level causes of known findings (structural; independent of any run)."""
+    e = b.export
+    out = []
+    # F17: an empty-word operator before the left operand of a left-recursive branch
+    for r in e["rules"]:
+        for br in r["recursive"]:
+            if br["kind"] in ("left", "leftright") and br["left"] > 0:
+                node = e["nodes"][br["node"] - 1]
+                if any(e["nodes"][c - 1]["k"] in ("rename", "elide", "act") for c in node["c"][: br["left"]]):
+                    out.append("epsop_before_left")
+    # F09: a conflict lelwel does not report because the follow position is a self reference inside the rule
+    if any(r["recursive"] for r in e["rules"]):
+        import p1
+        wd = cache_dir("p2", b.name)
+        gp = os.path.join(wd, "P1rec.ndjson")
+        write_ndjson(gp, [p1.tlc_record(e)])
+        res = run_tlc("MC_P1", "MC_P1_C10.cfg", env={"GFILE": gp}, workers=1, timeout=300, job="p2-c10-" + b.name)
+        if any(m and m.get("cause") == "inrule_selfref" for m in res.payload("MM")):
+            out.append("unreported_inrule_conflict")
+    return out
+
+
+def causes_for(b, mouts):
+    """Per-record cause of a contract violation, derived from the as-built machine: the record
+    must conform to the machine (no drift) and a named deviation must have fired in that run."""
+    if b.name in _cause_cache:
+        return _cause_cache[b.name]
+    res = machine_conformance(b, mouts, tag="cause")
+    n = len(mouts)
+    drift = {d["i"] for d in res.payload("DRIFT") if d and d["i"] <= n}
+    devs = {}
+    for d in res.payload("DEV"):
+        if d and d["i"] <= n and d["i"] not in drift:
+            devs[d["i"]] = set(d["dev"])
+    try:
+        gc = grammar_causes(b)
+    except Exception:
+        gc = []
+    _cause_cache[b.name] = (devs, drift, gc, bool(res.ok or res.violated))
+    return _cause_cache[b.name]
+
+
+def cause_of(b, mouts, idx):
+    devs, drift, gc, ok = causes_for(b, mouts)
+    for dev, name in DEV_CAUSE:
+        if dev in devs.get(idx, ()):
+            return name
+    return gc[0] if gc else ""
+
+
 class Built:
     def __init__(self, name, text, res):
         self.name, self.text, self.res = name, text, res
@@ -260,7 +316,7 @@ def judge(prop, tier):
     files = corpus_files()
     if prop == "C07":
         files = files + pratt_corpus(tier)
-    if prop in ("C01", "C02", "C03", "C08", "C16"):
+    if prop in ("C01", "C02", "C03", "C04", "C08", "C16"):
         files = files + oc_family(tier)
     built = build_all(files)
     cap = 1600 if tier == "quick" else 30000
@@ -322,8 +378,10 @@ def judge(prop, tier):
                 continue
             r = outs[v["i"] - 1]
             o = r["o"] if pairs else r
-            key = "%s:%s:%s:%d:%s:%s" % (prop, v["why"], b.name, o["en"], " ".join(o["w"]),
-                                         "".join("1" if x else "0" for x in o["s"]))
+            mouts = [x["o"] for x in outs] if pairs else outs
+            cause = cause_of(b, mouts, v["i"])
+            key = "%s:%s:%s:%s:%d:%s:%s" % (prop, v["why"], cause, b.name, o["en"], " ".join(o["w"]),
+                                            "".join("1" if x else "0" for x in o["s"]))
             desc = "%s/%s on grammar %s entry %d input [%s] script %s: diags=%s" % (
                 prop, v["why"], b.name, o["en"], " ".join(o["w"]), o["s"], [d[:2] for d in o["diags"]])
             rep.violation(key, desc, {"property": prop, "why": v["why"], "grammar": b.name,
@@ -642,7 +700,7 @@ def reference_stage(rep, sel, cap):
             if i in matched:
                 out["matched"] += 1
                 continue
-            key = "C08:no_reference_run:%s:%d:%s:" % (b.name, o["en"], " ".join(o["w"]))
+            key = "C08:no_reference_run:%s:%s:%d:%s:" % (cause_of(b, outs, i), b.name, o["en"], " ".join(o["w"]))
             desc = ("C08: no choice of alternatives makes the reference run (chosen alternative executed directly) end "
                     "with the tree and diagnostics the real parser returned; grammar %s input [%s] diags=%s" %
                     (b.name, " ".join(o["w"]), [d[:2] for d in o["diags"]]))
